@@ -479,7 +479,11 @@ func cropStsc(b *mp4.StscBox, lastSampleNr uint32) error {
 	samplesLeft := lastSampleNr - lastEntry.FirstSampleNr + 1
 	nrChunksInLast := samplesLeft / lastEntry.SamplesPerChunk
 	nrLeft := samplesLeft - nrChunksInLast*lastEntry.SamplesPerChunk
-	if nrLeft > 0 {
+	if nrLeft > 0 && nrChunksInLast == 0 {
+		// The cut is inside the first chunk of the last entry: shorten that entry
+		// instead of adding a second entry with the same first chunk.
+		b.Entries[entryIdx].SamplesPerChunk = nrLeft
+	} else if nrLeft > 0 {
 		sdid := b.GetSampleDescriptionID(int(lastEntry.FirstChunk))
 		err := b.AddEntry(lastEntry.FirstChunk+nrChunksInLast, nrLeft, sdid)
 		if err != nil {
